@@ -40,9 +40,9 @@ structure Slot where
 
 inductive Ev
   | log (text : Bytes)
-  | openWrite (path : Bytes)
-  | seek (pos : Nat)
-  | writeD (b : Bytes)
+  | mark (path : Bytes) (pos : Nat) (b : Bytes)   -- open_write(path) ok; lseek(pos); write(b); close
+  | openWriteFail (path : Bytes)                 -- open_write(path) failed
+  | stray                                        -- never emitted by the model: a write/seek outside that pattern
   | openAppend (path : Bytes)
   | bounce (text : Bytes)
   | unlink (path : Bytes)
@@ -78,8 +78,8 @@ def markdone (c : Nat) (st : St) (id pos : Nat) : St × List Ev :=
   let path := fmtqfn (chanaddr c) id true
   let (p, st) := nextPlan st
   if p = 1 then
-    (st, [.openWrite path, .log (str "warning: trouble marking " ++ path ++ str "; message will be delivered twice!\n")])
-  else (st, [.openWrite path, .seek pos, .writeD [68]])
+    (st, [.openWriteFail path, .log (str "warning: trouble marking " ++ path ++ str "; message will be delivered twice!\n")])
+  else (st, [.mark path pos [68]])
 
 /-! ### `addbounce` (virtualdomains empty, so `stripvdomprepend` is the identity) -/
 def squashGo (prev : Byte) : Bytes → Bytes
@@ -149,6 +149,28 @@ def statusLine (env : Env) (st : St) : Bytes :=
 /-! ### one complete report line -/
 def DYINGMSG : Bytes := Nq.Gen.SpawnTexts.DYINGMSG     -- regenerated from qmail-send.c
 
+def cstr2 (s : Bytes) : Bytes := s.takeWhile (· != 0)
+
+/-- the `switch(dline[c].s[1])` of `del_dochan` for a delivery slot in use -/
+def reportCore (env : Env) (st : St) (sl : Slot) (jb : Job) (letter : Byte) (text : Bytes) : St × List Ev :=
+  let pre := str "delivery " ++ fmtUlong sl.delid
+  let dec (st : St) : St := setJob st sl.j { jb with numtodo := jb.numtodo - 1 }
+  if letter = 75 then
+    let m := markdone env.chan st jb.id sl.mpos
+    (dec m.1, .log (pre ++ str ": success: " ++ logsafe text ++ [LF]) :: m.2)
+  else if letter = 90 then
+    (st, [.log (pre ++ str ": deferral: " ++ logsafe text ++ [LF])])
+  else if letter = 68 then
+    let m := markdone env.chan st jb.id sl.mpos
+    (dec m.1, .log (pre ++ str ": failure: " ++ logsafe text ++ [LF]) :: addbounce jb.id sl.recip text ++ m.2)
+  else (st, [.log (pre ++ str ": report mangled, will defer\n")])
+
+/-- `job_close(d[c][delnum].j); d[c][delnum].used = 0; --concurrencyused[c]; del_status();` -/
+def finishReport (env : Env) (r : St × List Ev) (delnum j : Nat) : St × List Ev :=
+  let c := jobClose env r.1 j
+  let st := { c.1 with slots := c.1.slots.set delnum none }
+  (st, r.2 ++ c.2 ++ [.log (statusLine env st)])
+
 /-- `dl` = `dline[c].s[0..len)` at the moment the NUL has been appended (and the line cut to REPORTMAX) -/
 def processLine (env : Env) (st : St) (dl : Bytes) : St × List Ev :=
   let delnum := (dl.headD 0).toNat
@@ -160,23 +182,7 @@ def processLine (env : Env) (st : St) (dl : Bytes) : St × List Ev :=
     let dyingZ := letter0 = 90 ∧ jb.dying
     let letter := if dyingZ then 68 else letter0
     let text := if dyingZ then dl.dropLast.drop 2 ++ DYINGMSG else cstr2 (dl.drop 2)
-    let pre := str "delivery " ++ fmtUlong sl.delid
-    let dec (st : St) : St := setJob st sl.j { jb with numtodo := jb.numtodo - 1 }
-    let r : St × List Ev :=
-      if letter = 75 then
-        let m := markdone env.chan st jb.id sl.mpos
-        (dec m.1, .log (pre ++ str ": success: " ++ logsafe text ++ [LF]) :: m.2)
-      else if letter = 90 then
-        (st, [.log (pre ++ str ": deferral: " ++ logsafe text ++ [LF])])
-      else if letter = 68 then
-        let m := markdone env.chan st jb.id sl.mpos
-        (dec m.1, .log (pre ++ str ": failure: " ++ logsafe text ++ [LF]) :: addbounce jb.id sl.recip text ++ m.2)
-      else (st, [.log (pre ++ str ": report mangled, will defer\n")])
-    let c := jobClose env r.1 sl.j
-    let st := { c.1 with slots := c.1.slots.set delnum none }
-    (st, r.2 ++ c.2 ++ [.log (statusLine env st)])
-where
-  cstr2 (s : Bytes) : Bytes := s.takeWhile (· != 0)
+    finishReport env (reportCore env st sl jb letter text) delnum sl.j
 
 /-- one byte read from the report descriptor -/
 def step (env : Env) (st : St) (ch : Byte) : St × List Ev :=
